@@ -110,7 +110,8 @@ Definition accept_code (c actor obj val : Z) : K :=
   if c =? 1 then at_q p QIdle ;; kguard (fun a => negb (pcall a p) && znz val) ;; kstep (fun _ => Push p) ;; (fun a => Some (set_push a p val true))
   else if c =? 20 then at_q p Q0 ;; k_hobj obj ;; k_addr (fun a => head (ms a)) val ;;
                        (fun a => Some (set_tag a (nn (ms a)) (ptag a p))) ;; kstep (fun _ => PStep p)
-  else if c =? 22 then at_q p Q1 ;; kstep (fun _ => PStep p) ;; at_q p Q2 ;; k_tobj obj ;; kstep (fun _ => PStep p)
+  else if c =? 34 then at_q p Q1 ;; k_addr (fun a => qprev (P (ms a) p)) val ;; kstep (fun _ => PStep p)
+  else if c =? 22 then at_q p Q2 ;; k_tobj obj ;; kstep (fun _ => PStep p)
   else if c =? 21 then at_q p Q3 ;; k_nobj (fun a => qprev (P (ms a) p)) obj ;; k_addr (fun a => qn (P (ms a) p)) val ;; kstep (fun _ => PStep p)
   else if c =? 2 then at_q p QIdle ;; kguard (fun a => pcall a p && Bool.eqb (qhead (P (ms a) p)) (znz obj)) ;;
                       k_addr (fun a => qn (P (ms a) p)) val ;; (fun a => Some (set_push a p 0 false))
